@@ -20,6 +20,40 @@ import time
 from . import common as C
 from . import known as K
 
+LINECOV = set()  # (file relative to the package, line) reached by any worker of this run
+
+
+def executable_lines(path):
+    """line numbers that carry code in a source file (from the compiled code objects, as sys.monitoring sees them)"""
+    try:
+        top = compile(open(path).read(), path, "exec")
+    except Exception:
+        return set()
+    out, todo = set(), [top]
+    while todo:
+        co = todo.pop()
+        out.update(l for _, _, l in co.co_lines() if l is not None and l > 0)
+        todo += [k for k in co.co_consts if hasattr(k, "co_lines")]
+    return out
+
+
+def linecov_summary(files_prefixes=("algos", "partition", "synthetic_obj")):
+    per = {}
+    missing = {}
+    for sub in files_prefixes:
+        d = os.path.join(C.PKG, sub)
+        for fn in sorted(os.listdir(d)) if os.path.isdir(d) else []:
+            if not fn.endswith(".py") or fn == "__init__.py":
+                continue
+            rel = os.path.join(sub, fn)
+            ex = executable_lines(os.path.join(C.PKG, rel))
+            hit = {l for f, l in LINECOV if f == rel} & ex
+            if hit:
+                per[rel] = "%d/%d" % (len(hit), len(ex))
+                missing[rel] = sorted(ex - hit)
+    return per, missing
+
+
 NPROC = int(os.environ.get("VERIF_NPROC", str(min(16, os.cpu_count() or 4))))
 
 
@@ -68,6 +102,11 @@ def run_sharded(prop, cases, wall_per_shard, wall_scale=1):
             ferr.close()
         results, unfinished, errs = {}, [], []
         for j, (p, fout, ferr, idxs) in enumerate(procs):
+            if os.path.exists(fout + ".cov"):
+                try:
+                    LINECOV.update((f, int(l)) for f, l in json.load(open(fout + ".cov")))
+                except (ValueError, OSError):
+                    pass
             if os.path.exists(fout):
                 for line in open(fout):
                     line = line.strip()
@@ -109,6 +148,9 @@ def main(argv=None):
 
     if a.replay:
         rep = json.load(open(a.replay))
+        if rep["case"].get("pooled"):
+            # a verdict over the pooled observations of a whole run: the replay is that run
+            return main([prop, "--tier", rep["case"]["tier"], "--seed", str(rep["case"]["seed"]), "--no-evidence"])
         res = M.run_case(rep["case"])
         print(json.dumps(C.jsonable({"viol": res.get("viol"), "crash": res.get("crash"), "obs": res.get("obs")}),
                          indent=1))
@@ -189,7 +231,7 @@ def main(argv=None):
             nontriv_sigs.add(sig)
             if len(samples) < 4 and not case.get("_probe_of"):
                 samples.append({"case": {k: v for k, v in case.items() if not k.startswith("_")},
-                                "observed": r.get("obs", {})})
+                                "observed": {k: v for k, v in r.get("obs", {}).items() if not k.startswith("~")}})
         if r.get("crash_other"):
             crashes_other[r["crash_other"]] += 1
         for v in r.get("viol", []):
@@ -206,6 +248,12 @@ def main(argv=None):
             known_hits[f["id"]][1] += 1
         else:
             unlisted.append((v.get("case", {}), v))
+
+    # pooled statistics ("~" keys are summed over all cases and judged once, by the property's own post() hook)
+    pooled = {k: obs_sum.pop(k) for k in [k for k in obs_sum if k.startswith("~")]}
+    post = M.post(pooled, obs_sum, tier) if hasattr(M, "post") else {}
+    for v in post.get("violations", []):
+        unlisted.append(({"algo": v.get("algo", "pooled"), "pooled": True, "tier": tier, "seed": int(a.seed)}, v))
 
     # every open finding's probe must still fail the way the file says (else the entry is stale: said, not alarmed)
     stale = []
@@ -246,6 +294,7 @@ def main(argv=None):
         inconclusive.append("fewer than 2 distinct non-trivial cases")
     if errs and not results:
         inconclusive.append("workers failed: %s" % errs[0][-800:])
+    inconclusive += post.get("inconclusive", [])
 
     os.makedirs(os.path.join(C.VERIF, "replays"), exist_ok=True)
     seen_pred = set()
@@ -287,6 +336,13 @@ def main(argv=None):
     for k, v in extra.items():
         if k not in ("obs", "evaluations", "sigs", "samples"):
             cov[k] = C.jsonable(v)
+    for k, v in post.get("coverage", {}).items():
+        cov[k] = C.jsonable(v)
+    per, missing = linecov_summary()
+    cov["pyxab_source_lines_reached_by_this_run"] = per
+    if os.environ.get("PYXABMON_LINECOV_OUT"):
+        with open(os.environ["PYXABMON_LINECOV_OUT"], "w") as f:
+            json.dump({"reached": per, "not_reached": missing}, f, indent=1)
     ev = {
         "property_id": prop, "tier": tier, "seed": int(a.seed), "level": getattr(M, "LEVEL", "exploration"),
         "coverage": cov, "assumptions": M.ASSUMPTIONS, "wall_s": round(wall_s, 2), "violations": len(unlisted),
